@@ -1154,6 +1154,7 @@ func c12AllSteps() []c12StepID {
 
 func c12Run(c *core.Ctx) {
 	c12bRun(c) // part 2: path spellings (c12b.go)
+	c12cRun(c) // part 3: NoArgVars x operands shaped like var=value (c12b.go)
 	e := c12NewEnv(c)
 	defer e.cleanup()
 	steps := c12AllSteps()
@@ -1333,6 +1334,7 @@ func init() {
 			"x 8 flag combinations x Config.OpenFile {nil, recording wrapper}; steps are laid out over BEGIN / first record / END so that they happen in sequence order; " +
 			"a state is one program, a transition one execution on the real interpreter in a scratch directory with real child processes; " +
 			"observed per transition: process starts (exec shim), raw os file calls of package interp (redirected os functions), wrapper calls, directory contents after vs fixture, error result, evidence lines; " +
+			"part 2: every file-touching form x 10 spellings of one target x flags x OpenFile; part 3: NoArgVars on/off x operands shaped like var=value (5 operand lists, main loop / getline loop / both) x flags x OpenFile: with NoArgVars such an operand is a file (refused under NoFileReads, read otherwise), without it an assignment (never opened); every single-step case also as the second Execute of a reused Interpreter; " +
 			"distinct = distinct observation tuples",
 		Assumptions: []string{
 			"package interp reaches the file system only through the os functions redirected by the overlay (OpenFile Open Create ReadFile WriteFile Remove Rename Mkdir MkdirAll) and processes only through os/exec; the ALPHABET-GAP guard reports listed sites never executed",
